@@ -6,6 +6,7 @@ import (
 	"math/rand/v2"
 	"reflect"
 	"runtime"
+	"verifharness/bridge"
 
 	"github.com/miekg/dns"
 
@@ -220,6 +221,41 @@ func c02PointerGraph(r *rand.Rand) []byte {
 	return b
 }
 
+// c02BackwardChain: one record of an unknown type whose opaque RDATA holds a name followed by n
+// pointers, each to the one before it; then `users` 12-octet records whose owner is a pointer to
+// the top of the chain. With closing, the bottom of the chain is a forward pointer to the top
+// (a loop that is only recognised after walking it).
+func c02BackwardChain(n, users int, closing bool) []byte {
+	ptr := func(t int) []byte { return []byte{0xC0 | byte(t>>8), byte(t)} }
+	b := make([]byte, 12, 12+16+2*n+12*users)
+	if 12+11+5+2*n >= 0x4000 {
+		n = (0x4000 - 12 - 11 - 5 - 2) / 2
+	}
+	binary.BigEndian.PutUint16(b[6:], uint16(1+users))
+	b = append(b, 0, 0xFF, 0x00, 0, 1, 0, 0, 0, 0) // root owner, TYPE65280, IN, TTL 0
+	rdlen := 5 + 2*n
+	b = append(b, byte(rdlen>>8), byte(rdlen))
+	bottom := len(b)
+	top := bottom + 5 + 2*(n-1)
+	if closing {
+		b = append(b, ptr(top)...)
+		b = append(b, 'w', 'w', 0)
+	} else {
+		b = append(b, 3, 'w', 'w', 'w', 0)
+	}
+	prev := bottom
+	for i := 0; i < n; i++ {
+		at := len(b)
+		b = append(b, ptr(prev)...)
+		prev = at
+	}
+	for i := 0; i < users; i++ {
+		b = append(b, ptr(prev)...)
+		b = append(b, 0, 1, 0, 1, 0, 0, 0, 0, 0, 0)
+	}
+	return b
+}
+
 // tlvSoup wraps hostile TLV data into an OPT or SVCB record inside a message.
 func c02TLVSoup(r *rand.Rand) []byte {
 	var rd []byte
@@ -325,10 +361,21 @@ func c02Input(w *core.W, b []byte, kind string) {
 	m := new(dns.Msg)
 	var err error
 	before := allocated()
+	dns.VerifWork.Store(0)
 	if w.Guard("Msg.Unpack", wit, func() { err = m.Unpack(in) }) {
 		return
 	}
 	delta := allocated() - before
+	// work: steps of the only loop whose iterations do not each consume input (the label/pointer
+	// walk). A name costs at least 2 input octets (a pointer) and the decoder's own limits (126
+	// pointers, 127 labels) cap one walk at 254 steps, so 128 steps per input octet is a fixed
+	// multiple that correct code cannot exceed.
+	work := dns.VerifWork.Load()
+	w.Max("name_walk_steps_per_input_octet", float64(work)/float64(len(b)+1))
+	if work > int64(128*len(b)+512) {
+		w.Violation("C02/work-not-linear/Msg.Unpack", fmt.Sprintf("Msg.Unpack took %d label/pointer steps for an input of %d octets (bound %d)", work, len(b), 128*len(b)+512), wit)
+	}
+	c02Reuse(w, b, m, err, wit)
 	bound := uint64(1024*len(b) + 64*1024)
 	w.Max("alloc_per_input_octet", float64(delta)/float64(len(b)+1))
 	if delta > bound {
@@ -437,6 +484,47 @@ func c02Input(w *core.W, b []byte, kind string) {
 	w.Guard("IsMsg", wit, func() { dns.IsMsg(append([]byte(nil), b...)) })
 }
 
+// c02Dirty is a message with every section populated, decoded once per process; c02Reuse decodes
+// each input into a copy of it: a Msg that is reused for the next packet must end up exactly like
+// a fresh one (nothing of the previous content may survive as records "of" the new input).
+var c02DirtyWire = func() []byte {
+	m := new(dns.Msg)
+	m.SetQuestion("previous.example.", dns.TypeMX)
+	m.Response = true
+	m.Answer = []dns.RR{&dns.MX{Hdr: dns.RR_Header{Name: "previous.example.", Rrtype: dns.TypeMX, Class: 1, Ttl: 60}, Preference: 1, Mx: "mail.previous.example."}}
+	m.Ns = []dns.RR{&dns.NS{Hdr: dns.RR_Header{Name: "previous.example.", Rrtype: dns.TypeNS, Class: 1, Ttl: 60}, Ns: "ns.previous.example."}}
+	m.Extra = []dns.RR{&dns.A{Hdr: dns.RR_Header{Name: "ns.previous.example.", Rrtype: dns.TypeA, Class: 1, Ttl: 60}, A: []byte{192, 0, 2, 1}}}
+	m.SetEdns0(4096, true)
+	b, err := m.Pack()
+	if err != nil {
+		panic(err)
+	}
+	return b
+}()
+
+func c02Reuse(w *core.W, b []byte, fresh *dns.Msg, freshErr error, wit map[string]any) {
+	used := new(dns.Msg)
+	if used.Unpack(append([]byte(nil), c02DirtyWire...)) != nil {
+		w.Inconclusive("dirty-message-does-not-decode")
+		return
+	}
+	var err error
+	if w.Guard("Msg.Unpack(reused)", wit, func() { err = used.Unpack(append([]byte(nil), b...)) }) {
+		return
+	}
+	if (err == nil) != (freshErr == nil) {
+		w.Violation("C02/reused-msg/verdict-differs", fmt.Sprintf("Unpack into a fresh Msg: %v; into a Msg that held another message: %v", freshErr, err), wit)
+		return
+	}
+	if err != nil {
+		return
+	}
+	w.Count("reused_decodes", 1)
+	if d := bridge.Diff(fresh, used); d != "" {
+		w.Violation("C02/reused-msg/stale-content", "a Msg reused for this input differs from a fresh one (fresh vs reused) at "+d, wit)
+	}
+}
+
 func u16at(b []byte, off int) int {
 	if off+2 > len(b) {
 		return -1
@@ -480,6 +568,14 @@ func c02Crafted(w *core.W, j int) {
 	for k := 0; k < 60; k++ {
 		c02Input(w, c02PointerGraph(r), "pointer-graph")
 		c02Input(w, c02TLVSoup(r), "tlv-soup")
+	}
+	// long chains of strictly backward pointers inside opaque RDATA, used by many tiny records
+	for _, n := range []int{100, 126, 127, 128, 300, 2000, 8000} {
+		for _, users := range []int{1, 50, 2000} {
+			for _, closing := range []bool{false, true} {
+				c02Input(w, c02BackwardChain(n, users, closing), fmt.Sprintf("backward-chain-%d-users-%d", n, users))
+			}
+		}
 	}
 	// lying counts over a tiny body
 	for _, cnt := range interesting16 {
